@@ -8,6 +8,7 @@ phase outcome combination for 1-3 replicas) and is itself bound to the code by v
 same recorded executions against it (advisory: model_drift)."""
 import json
 import os
+import random
 import re
 from concurrent.futures import ThreadPoolExecutor
 
@@ -52,13 +53,34 @@ def resets(hists, thorough):
             to = has_timeout(s)
             if to and name not in ("normal", "big") and n == 3:
                 continue  # timeout scenarios: all pre-states for n <= 2, normal and big for n = 3
-            wait = 20
+            wait = 30
             if to:
-                wait = 90 if any(r["check"] == "timeout" for r in s) else 215
+                wait = 130 if any(r["check"] == "timeout" for r in s) else 280
             line = {"ev": "reset", "n": n, "need": need, "minok": minok, "large": large, "ro": ro,
                     "with": 1, "wait": wait, "s": s}
             (slow if to else fast).append(line)
     return fast, slow
+
+
+def multi_round(rng, hists, count):
+    """G4: Vacuum called 2-3 times on one topology, each round with a TLC-enumerated outcome combination
+    (without timeouts), random pre-state; returns executions (lists of lines)"""
+    by_n = {}
+    for h in hists:
+        if not has_timeout(h["s"]):
+            by_n.setdefault(h["n"], []).append(h["s"])
+    out = []
+    for _ in range(count):
+        n = rng.choice(sorted(by_n))
+        cands = by_n[n]
+        busy = [s for s in cands if any(r["compact"] != "na" for r in s)]
+        name = rng.choice([k for k in variants(n) if k != "ro"])
+        need, minok, large, ro = variants(n)[name]
+        pick = [rng.choice(busy if rng.random() < 0.8 else cands) for _ in range(rng.choice([2, 2, 3]))]
+        ex = [{"ev": "reset", "n": n, "need": need, "minok": minok, "large": large, "ro": ro, "with": 1, "wait": 30, "s": pick[0]}]
+        ex += [{"ev": "round", "s": s} for s in pick[1:]]
+        out.append(ex)
+    return out
 
 
 def hang_scripts():
@@ -66,11 +88,11 @@ def hang_scripts():
     waiting for Vacuum after `wait` seconds and records done=false"""
     ok = {"check": "hi", "compact": "ok", "commit": "ok", "cleanup": "na"}
     res = []
-    res.append({"ev": "reset", "n": 1, "need": 1, "minok": False, "large": False, "ro": False, "with": 1, "wait": 12,
+    res.append({"ev": "reset", "n": 1, "need": 1, "minok": False, "large": False, "ro": False, "with": 1, "wait": 25,
                 "s": [dict(ok, commit="timeout")]})
-    res.append({"ev": "reset", "n": 2, "need": 2, "minok": False, "large": False, "ro": False, "with": 1, "wait": 12,
+    res.append({"ev": "reset", "n": 2, "need": 2, "minok": False, "large": False, "ro": False, "with": 1, "wait": 25,
                 "s": [dict(ok), dict(ok, commit="timeout")]})
-    res.append({"ev": "reset", "n": 2, "need": 2, "minok": False, "large": False, "ro": False, "with": 1, "wait": 12,
+    res.append({"ev": "reset", "n": 2, "need": 2, "minok": False, "large": False, "ro": False, "with": 1, "wait": 25,
                 "s": [{"check": "hi", "compact": "err", "commit": "na", "cleanup": "timeout"},
                       {"check": "hi", "compact": "ok", "commit": "na", "cleanup": "ok"}]})
     return res
@@ -110,14 +132,18 @@ def drift(ctx, trace_path, constants, label):
 
 
 def run(ctx):
+    # seaweedfs' glog creates (empty) log files in os.TempDir() even with -logtostderr: keep them in the scratch dir
+    tmpd = os.path.join(ctx.out, "tmp")
+    os.makedirs(tmpd, exist_ok=True)
+    denv = {"TMPDIR": tmpd}
     ctx.sany("VacuumRound", "VacuumImpl", "VacuumRoundTrace", "VacuumImplTrace")
     kf_open = set(ctx.kf_open.keys())
     fixed = DEV_ROUND not in kf_open      # the fix: commit is in the tree unless the finding is (re)opened
     a_const = {"MaxN": 3 if ctx.thorough else 2, "Vols": {1}, "Guarded": True}
 
-    def b_const(ns, kinds, slow, hang=False, kfb=None, fx=None):
+    def b_const(ns, kinds, slow, hang=False, kfb=None, fx=None, rounds=1):
         return {"MaxN": 3, "Vols": {1}, "Guarded": True, "Ns": set(ns), "Kinds": set(kinds), "SlowReplies": slow,
-                "CommitMayHang": hang, "Fixed": fixed if fx is None else fx, "KFB": kf_open if kfb is None else kfb}
+                "CommitMayHang": hang, "Rounds": rounds, "Fixed": fixed if fx is None else fx, "KFB": kf_open if kfb is None else kfb}
 
     kinds = ["normal", "big", "under", "ro"]
     inv = ("INVARIANT TypeOK\nINVARIANT NoBadCommit\nINVARIANT LiveAgree\nINVARIANT PostOK\n"
@@ -142,10 +168,14 @@ def run(ctx):
                                         b_const({1}, ["normal"], False, kfb={DEV_COMMIT}, fx=False)),
                      {"expect_violation": "PostOK", "label": "layer B without the fix: unwritable after failed round (expected)"}))
     if ctx.thorough:
-        jobs.append(("mc", ctx.instance("MC_B_3", "VacuumImpl", "VacuumImpl_mc.cfg", b_const({3}, ["normal", "big", "under"], True)),
-                     {"label": "layer B n=3, timers may fire early", "timeout": 2400, "workers": 4}))
-        jobs.append(("mc", ctx.instance("MC_B_3live", "VacuumImpl", "VacuumImpl_live.cfg", b_const({3}, kinds, False)),
-                     {"label": "layer B n=3: termination under WF"}))
+        jobs.append(("mc", ctx.instance("MC_B_2rounds", "VacuumImpl", "SPECIFICATION FairSpec\n" + inv + "PROPERTY Termination\nCHECK_DEADLOCK FALSE",
+                                        b_const({1, 2}, kinds, False, rounds=2)),
+                     {"label": "layer B n<=2, Vacuum called twice on the same topology; termination under WF"}))
+        jobs.append(("mc", ctx.instance("MC_B_3", "VacuumImpl", "VacuumImpl_mc.cfg", b_const({3}, ["normal", "big"], True)),
+                     {"label": "layer B n=3 (writable / at size limit), timers may fire early", "timeout": 2400, "workers": 4}))
+        jobs.append(("mc", ctx.instance("MC_B_3live", "VacuumImpl", "SPECIFICATION FairSpec\n" + inv + "PROPERTY Termination\nCHECK_DEADLOCK FALSE",
+                                        b_const({3}, kinds, False)),
+                     {"label": "layer B n=3, all pre-states, timers fire on hangs only; termination under WF"}))
     # generator: layer B with timers that fire only on a hang = the schedules of scripted runs
     gen = ctx.instance("G_B", "VacuumImpl", "SPECIFICATION Spec\n" + inv + "INVARIANT Emit\nCHECK_DEADLOCK FALSE",
                        b_const({1, 2, 3}, ["normal"], False))
@@ -167,7 +197,8 @@ def run(ctx):
     with ThreadPoolExecutor(max_workers=8) as pool:
         futs = [pool.submit(do, j) for j in jobs]
         gfut = pool.submit(lambda: ctx.generate(gen, workers=2, timeout=900))
-        bfut = pool.submit(lambda: ctx.build("c14"))
+        # C14_DRIVER: mutation testing with a driver built from a scratch worktree of /repo
+        bfut = pool.submit(lambda: os.environ.get("C14_DRIVER") or ctx.build("c14"))
         hists = gfut.result()
         binp = bfut.result()
         if ctx.thorough:
@@ -178,7 +209,7 @@ def run(ctx):
         script = os.path.join(ctx.out, "script.ndjson")
         traces = []
         if ctx.replay:
-            traces.append(ctx.drive(binp, ["--script", ctx.replay, "--n", 64], timeout=600))
+            traces.append(ctx.drive(binp, ["--script", ctx.replay, "--n", 64], timeout=600, env=denv))
         else:
             slow_fut = None
             if ctx.thorough:
@@ -186,9 +217,12 @@ def run(ctx):
                 # the timers are real (1 min check, 3 min compact)
                 sp = os.path.join(ctx.out, "script-timeouts.ndjson")
                 write_script(sp, slow + hang_scripts())
-                slow_fut = pool.submit(lambda: ctx.drive(binp, ["--script", sp, "--n", len(slow) + 3], timeout=900, name="trace-timeouts"))
-            write_script(script, fast)
-            traces.append(ctx.drive(binp, ["--script", script, "--n", 6], timeout=600))
+                slow_fut = pool.submit(lambda: ctx.drive(binp, ["--script", sp, "--n", len(slow) + 3], timeout=900, name="trace-timeouts", env=denv))
+            rng = random.Random(ctx.seed)
+            multi = multi_round(rng, hists, 1500 if ctx.thorough else 200)
+            ctx.notes["scripts"]["multi_round_random"] = len(multi)
+            write_script(script, fast + [line for ex in multi for line in ex])
+            traces.append(ctx.drive(binp, ["--script", script, "--n", 6], timeout=600, env=denv))
             if slow_fut:
                 traces.append(slow_fut.result())
         for f in futs:
@@ -214,16 +248,26 @@ def run(ctx):
         return m
 
     tconst = {"MaxN": 3, "Vols": {1, 2}, "Guarded": True}
-    bconst = dict(b_const({1}, ["normal"], False, hang=True, kfb=set()), Vols={1, 2})
+    bconst = dict(b_const({1}, ["normal"], False, hang=True, kfb=set(), rounds=3), Vols={1, 2})
     total = unexplained = 0
-    for k, tp in enumerate(traces):
-        ctx.judge("VacuumRoundTrace", tp, "trace_base.cfg", tconst,
-                  nontrivial=lambda e: any('"op":"compact"' in x for x in e),
-                  mutate=mutate if k == 0 else None, label="t%d" % k)
-        t, u = drift(ctx, tp, bconst, "t%d" % k)
-        total += t
-        unexplained += u
+    with ThreadPoolExecutor(max_workers=2) as pool:
+        dfuts = [pool.submit(drift, ctx, tp, bconst, "t%d" % k) for k, tp in enumerate(traces)]
+        for k, tp in enumerate(traces):
+            ctx.judge("VacuumRoundTrace", tp, "trace_base.cfg", tconst,
+                      nontrivial=lambda e: any('"op":"compact"' in x for x in e),
+                      mutate=mutate if k == 0 else None, label="t%d" % k, jobs=4)
+        for f in dfuts:
+            t, u = f.result()
+            total += t
+            unexplained += u
     ctx.notes["layer_b_trace_validation"] = {"executions": total, "not_explained_by_layer_b": unexplained}
+    notdone = 0
+    for tp in traces:
+        for e in vf.split_execs(tp):
+            r = json.loads(e[0])
+            if any('"done":false' in x for x in e) and not any(x.get(op) == "timeout" for x in r["s"] for op in ("commit", "cleanup")):
+                notdone += 1
+    ctx.notes["vacuum_not_returned_within_wait_without_scripted_commit_hang"] = notdone
     # how the real timers / transports ended the scripted hangs (information only; no verdict uses wall clock)
     hung = []
     for tp in traces:
@@ -248,7 +292,8 @@ def run(ctx):
                 "read-only), one fresh Topology each, a bystander volume in the same layout; quick tier: the "
                 "combinations without a timeout; thorough: also the timeout combinations (n<=2 all pre-states, n=3 normal "
                 "and at-size-limit) with the real 1 min / 3 min timers, all in parallel, plus three never-answering "
-                "commit/cleanup scripts; non-trivial = a compaction was started; distinct by hash of the recorded execution")
+                "commit/cleanup scripts; plus seeded random executions calling Vacuum 2-3 times on one topology, each round "
+                "with one of the enumerated combinations; non-trivial = a compaction was started; distinct by hash of the recorded execution")
     ctx.exhaustive = True
     ctx.assumptions += [
         "volume servers are scripted gRPC endpoints (pb.NewGrpcServer options): live content is the ghost of VacuumRound.tla "
